@@ -63,6 +63,25 @@ def items(tier: str) -> List[Any]:
             out.append(s)
     if tier == "quick":
         out = out[:13634] + out[13634::4]
+    # every GroupSize / GroupIndex comparison form (and pairs of them) in the simplest skeletons: the printed
+    # number lists of the transaction-context printer against the internal sets
+    from mc.gen import atoms as A  # pylint: disable=import-outside-toplevel
+
+    ints = A.size_atoms((0, 1, 2, 3, 16, 17)) + A.index_atoms()
+    for a in ints:
+        s = "#pragma version 8\n" + "\n".join(a) + "\nassert\nint 1\nreturn\n"
+        if s not in seen:
+            seen.add(s)
+            out.append(s)
+    idx_atoms = [a for a in ints if "txn GroupIndex" in a and any(x in a for x in ("!=", "<", ">="))]
+    for a in idx_atoms[:: 1 if tier != "quick" else 3]:
+        for b in idx_atoms[:: 1 if tier != "quick" else 3]:
+            s = "#pragma version 8\n" + "\n".join(a) + "\nassert\n" + "\n".join(b) + "\nbz skip\nint 7\npop\nskip:\nint 1\nreturn\n"
+            if s not in seen:
+                seen.add(s)
+                out.append(s)
+    # the list renderer itself, on every subset of 0..16 (sizes 1..16, indices 0..15)
+    out.extend(f"NUMLIST:{k}" for k in range(32))
     return out
 
 
@@ -93,6 +112,22 @@ def worker(src: str, res: runner.Result) -> None:  # pylint: disable=too-many-lo
     from tealer.printers.transaction_context import PrinterTransactionContext  # pylint: disable=import-outside-toplevel
     from tealer.utils.output import ROOT_OUTPUT_DIRECTORY, ExecutionPaths  # pylint: disable=import-outside-toplevel
     from tealer.__main__ import handle_output  # pylint: disable=import-outside-toplevel
+
+    if src.startswith("NUMLIST:"):
+        k = int(src.split(":")[1])
+        for mask in range(k * 4096, (k + 1) * 4096):
+            vals = [i for i in range(17) if mask >> i & 1]
+            try:
+                txt = PrinterTransactionContext._repr_num_list(list(vals))  # pylint: disable=protected-access
+                back = sorted(decode_num_list(txt))
+            except BaseException as e:  # pylint: disable=broad-except
+                res.violation("C18.number-list-rendering", src, values=vals, error=repr(e))
+                continue
+            res.count("number_lists_checked")
+            if back != vals:
+                res.violation("C18.number-list-rendering", src, values=vals, printed=txt)
+        res.mark_nontrivial(src)
+        return
 
     lines = tokenize(src)
     g = RefGraph(lines)
